@@ -40,6 +40,8 @@ def _receiver(attr: ast.Attribute) -> str:
 
 def run(chk) -> None:
     repo = chk.repo
+    from ._engine import engine_view
+    chk.extra["helpers_inlined"] = engine_view(repo)
     m = repo.module(CL)
 
     # ---------------------------------------------------------------- R1: guarded growth
